@@ -361,6 +361,26 @@ fn main() {
         result["loops"] = serde_json::Value::Array(loops);
         result["dropped_attrs"] = serde_json::json!(dropped);
     }
+    if !f.is_fn && rules.iter().any(|r| r == "R10pub") {
+        // widen field visibility of an extracted struct (Verus treats a struct with private
+        // fields as opaque in contracts); visibility has no run-time meaning
+        if let Ok(st) = syn::parse_str::<syn::ItemStruct>(&work) {
+            let mut edits = Vec::new();
+            for fld in st.fields.iter() {
+                if matches!(fld.vis, syn::Visibility::Inherited) {
+                    if let Some(id) = &fld.ident {
+                        let at = id.span().byte_range().start;
+                        edits.push(Edit { range: at..at, rep: "pub ".into(), rule: "R10pub".into() });
+                    }
+                }
+            }
+            let n = edits.len() as u64;
+            work = apply_edits(&work, edits);
+            let mut fired2: BTreeMap<String, u64> = serde_json::from_value(result["fired"].clone()).unwrap_or_default();
+            *fired2.entry("R10pub".into()).or_insert(0) += n;
+            result["fired"] = serde_json::json!(fired2);
+        }
+    }
     result["text"] = serde_json::Value::String(work);
     println!("{}", result);
 }
